@@ -186,15 +186,17 @@ Section CopyFrame.
      between the mutator's construction and the end, on the collection value *)
   Variable tail : val -> M val.
   Variable pe : obj + err.          (* the pure outcome of the edit: new content, or the error *)
-  Hypothesis Htail : forall s1 lc1, nth_error (heap s1) lc1 = Some o ->
+  (* the edit may consume user-function calls (state st: same heap) *)
+  Hypothesis Htail : forall s1 lc1, nth_error (heap s1) lc1 = Some o -> fail_at s1 = fail_at s ->
+    exists st, heap st = heap s1 /\
     tail (VRef lc1) s1 =
     match pe with
-    | inl o' => mutate_attr ct (exec ct XFUEL) l a (VRef lc1) false false false false (upd s1 lc1 o')
-    | inr e => (Err e, s1)
+    | inl o' => mutate_attr ct (exec ct XFUEL) l a (VRef lc1) false false false false (upd st lc1 o')
+    | inr e => (Err e, st)
     end.
   Hypothesis Hsc : forall o', pe = inl o' -> scalar_obj o' = true.
 
-  Theorem fc_whole (hp : shelper) (edit : attr_spec -> aval -> ahargs -> sres aval) ah res :
+  Theorem fc_whole_gen (hp : shelper) (edit : attr_spec -> aval -> ahargs -> sres aval) ah res :
     ah_if ah = true -> mutates_in_place hp ah = false ->
     spec_unfrozen ct h0 (AInst c flds) hp ah = spec_elem_helper ct h0 (AInst c flds) a ah edit ->
     edit sp (aobj o) ah = match pe with inl o' => SOk (aobj o') | inr e => SErr e end ->
@@ -210,19 +212,19 @@ Section CopyFrame.
     rewrite (bind_ok _ _ _ _ _ fc_mk_mutator).
     assert (Hlp : nth_error (heap (push s o)) lp = Some o).
     { unfold push, lp. cbn [heap]. now rewrite nth_error_app2, Nat.sub_diag by lia. }
-    rewrite (Htail (push s o) lp Hlp).
-    assert (Hold_p : old_cells_kept s (push s o)).
-    { intros i Hi. unfold push. cbn [heap]. now apply nth_error_app1. }
+    destruct (Htail (push s o) lp Hlp eq_refl) as [st [Hst Et]]. rewrite Et. clear Et.
+    assert (Hold_p : old_cells_kept s st).
+    { intros i Hi. rewrite Hst. unfold push. cbn [heap]. now apply nth_error_app1. }
     destruct pe as [o'|e]; [|split; auto].
-    set (se := upd (push s o) lp o').
+    set (se := upd st lp o').
     assert (Hlen_e : length (heap se) = S (length (heap s))).
-    { unfold se. rewrite heap_upd, set_nth_length. unfold push. cbn [heap]. rewrite app_length. cbn [length]. lia. }
+    { unfold se. rewrite heap_upd, set_nth_length, Hst. unfold push. cbn [heap]. rewrite app_length. cbn [length]. lia. }
     assert (Hold_e : old_cells_kept s se).
     { intros i Hi. unfold se. rewrite heap_upd, set_nth_other by (unfold lp; lia). now apply Hold_p. }
     assert (Hl_e : nth_error (heap se) l = Some (OInst c d)).
     { rewrite Hold_e; auto. apply nth_error_Some. congruence. }
     assert (Hlp_e : nth_error (heap se) lp = Some o').
-    { unfold se. apply upd_at. unfold push. cbn [heap]. rewrite app_length. cbn [length]. unfold lp. lia. }
+    { unfold se. apply upd_at. rewrite Hst. unfold push. cbn [heap]. rewrite app_length. cbn [length]. unfold lp. lia. }
     assert (Hflat_e : flat_fields (heap se) d).
     { intros p Hp. destruct (Hflat p Hp) as [Hn|[lx [ox [E [Hx Hs]]]]]; [left; auto|].
       right. exists lx, ox. split; auto. split; auto. rewrite Hold_e; auto. apply nth_error_Some. congruence. }
@@ -245,6 +247,38 @@ Section CopyFrame.
     rewrite (Hf 22). reflexivity.
   Qed.
 End CopyFrame.
+
+(* the frame for an edit that leaves the state alone but for the container cell *)
+Theorem fc_whole ct h0 l a c d k sp s lc o :
+  nth_error (heap s) l = Some (OInst c d) -> lookup_cls ct c = Some k -> lookup_attr k a = Some sp ->
+  NoDup (map fst d) -> c_dnc k = false -> c_post_copy k = None -> no_inval k ->
+  ty_is_collection (a_ty sp) = true -> assoc a d = Some (VRef lc) -> nth_error (heap s) lc = Some o ->
+  scalar_obj o = true -> flat_fields (heap s) d -> assoc A_INITIALIZING d = None -> a <> A_INITIALIZING ->
+  forall (tail : val -> M val) (pe : obj + err),
+  (forall s1 lc1, nth_error (heap s1) lc1 = Some o ->
+     tail (VRef lc1) s1 =
+     match pe with
+     | inl o' => mutate_attr ct (exec ct XFUEL) l a (VRef lc1) false false false false (upd s1 lc1 o')
+     | inr e => (Err e, s1)
+     end) ->
+  (forall o', pe = inl o' -> scalar_obj o' = true) ->
+  forall (hp : shelper) (edit : attr_spec -> aval -> ahargs -> sres aval) ah res,
+  ah_if ah = true -> mutates_in_place hp ah = false ->
+  spec_unfrozen ct h0 (AInst c (map (fun p => (fst p, abs 23 (heap s) (snd p))) (sorted_fields d))) hp ah =
+    spec_elem_helper ct h0 (AInst c (map (fun p => (fst p, abs 23 (heap s) (snd p))) (sorted_fields d))) a ah edit ->
+  edit sp (aobj o) ah = match pe with inl o' => SOk (aobj o') | inr e => SErr e end ->
+  res = bind (mk_mutator ct sp l false) tail s ->
+  match res with
+  | (Ok r, s') => exists l', r = VRef l' /\ length (heap s) <= l' /\ old_cells_kept s s' /\
+                  spec_helper ct h0 (absv (heap s) (VRef l)) hp ah = SOk (absv (heap s') (VRef l'))
+  | (Err e, s') => spec_helper ct h0 (absv (heap s) (VRef l)) hp ah = SErr e /\ old_cells_kept s s'
+  end.
+Proof.
+  intros Hl Hc Ha Hd Hdnc Hpc Hni Hcoll Hfld Hlc Ho Hflat Hinit Ha0 tail pe Htail Hsc hp edit ah res Hif Hmp Hun Hspec Hres.
+  apply (fc_whole_gen ct h0 l a c d k sp s lc o Hl Hc Ha Hd Hdnc Hpc Hni Hcoll Hfld Hlc Ho Hflat Hinit Ha0 tail pe)
+    with (edit := edit); auto.
+  intros s1 lc1 H1 _. exists s1. split; auto.
+Qed.
 
 (* ------------------------------------------------------------------ *)
 (** * The code of with_<item> / without_<item> after the mutator has been built *)
